@@ -13,19 +13,14 @@ LOG = os.environ.get("REUSE_VERIF_NETLOG")
 
 
 def _fake(url, *a, **k):
-    from props.c19 import _Resp, body_of
+    from props.c19 import scripted
     u = url if isinstance(url, str) else url.full_url
     name = u.rsplit("/", 1)[-1]
     ident = name[:-4] if name.endswith(".txt") else name
     if LOG:
         with open(LOG, "a", encoding="utf-8") as fh:
             fh.write(ident + "\n")
-    out = NET.get(ident, "http")
-    if out == "ok":
-        return _Resp(body_of(ident).encode("utf-8"))
-    if out == "http":
-        raise urllib.error.HTTPError(u, 404, "Not Found", None, None)
-    raise urllib.error.URLError("connection refused (scripted)")
+    return scripted(ident, NET.get(ident, "http"), u)
 
 
 urllib.request.urlopen = _fake
